@@ -1,7 +1,7 @@
 (* C07 — Every string that is not a valid RFC 9535 query is rejected.  Statements only.
    The whole-language statement is kept visible and is NOT proved (partial): *)
 From Coq Require Import List NArith ZArith Bool.
-From JP Require Import Base Ast Peg Dec2Bin Known Build Concrete BuildFacts FragParse FragBuild FragWs GenParse GenBuild FilterParse FilterBuild RejectFacts RejectMore RejectRange RejectBlank RejectTyping PegAlpha PegTree TokenFacts TokenMore TokenSeg TokenOps.
+From JP Require Import Base Ast Peg Dec2Bin Known Build Concrete BuildFacts FragParse FragBuild FragWs GenParse GenBuild FilterParse FilterBuild RejectFacts RejectMore RejectRange RejectBlank RejectTyping PegAlpha PegTree TokenFacts TokenMore TokenSeg TokenOps TokenStr IntCanon TopSegs.
 From JP.gen Require Import Grammar.
 Import ListNotations.
 
@@ -278,6 +278,27 @@ Theorem C07_comp_op_tokens : forall s st en kids,
   inforest rname (Pair R_comp_op st en kids) (parse_tokens s) -> In (slice s st en) comp_ops.
 Proof. exact comp_op_token_text. Qed.
 Print Assumptions C07_comp_op_tokens.
+
+(* an integer token that parse::<i64> reads as z IS the canonical decimal text of z (IntCanon.v: a digit string without a leading
+   zero is the rendering of its value): no other spelling - 01, -0, +1, 1e0 - is ever read as an integer, for every input *)
+Theorem C07_int_token_read_as_z_is_the_text_of_z : forall s st en kids z,
+  inforest rname (Pair R_int st en kids) (parse_tokens s) -> parse_i64 (slice s st en) = Some z -> slice s st en = int_text z.
+Proof. exact int_token_round_trip. Qed.
+Print Assumptions C07_int_token_read_as_z_is_the_text_of_z.
+
+Theorem C07_string_tokens_quoted : forall s st en kids,
+  inforest rname (Pair R_string st en kids) (parse_tokens s) -> quoted_shape (slice s st en).
+Proof. exact string_token_quoted. Qed.
+Print Assumptions C07_string_tokens_quoted.
+
+(* blank space after the dot(s) of a segment is accepted by the GRAMMAR (implicit skipping) and refused by parser.rs: for EVERY
+   input the parser accepts, no top-level segment of the query has a blank right after its `.` or `..` (TopSegs.v) *)
+Theorem C07_no_blank_after_dot_in_accepted_query : forall s q,
+  parse_query s = POk q -> Forall (seg_dot_ok s) (top_segments s).
+Proof. exact accepted_top_segments_dot_ok. Qed.
+Print Assumptions C07_no_blank_after_dot_in_accepted_query.
+Example C07_top_segments_example : length (top_segments [36; 46; 97; 46; 46; 98]%N) = 2%nat.
+Proof. exact top_segments_example. Qed.
 
 (* near-misses, evaluated inside Coq on the grammar of this run (a test, not the unbounded claim) *)
 Definition rejected (s : str) : bool := match parse_query s with PErr => true | _ => false end.
